@@ -22,3 +22,7 @@ check("C17", "exploration",
       "Differential runtime monitoring of DCG translation: seeded random non-left-recursive grammars using every body construct (terminals, strings, non-terminals with arguments, sequence incl. left-nested, ';' '|', {}//1, \\+//1, !//0, call//N, if-then(-else), push-back), loaded through consult and through expand_term/2+assertz, are run on all 31 lists over {a,b} up to length 4 (+ lists with c) in recognition, remainder and generation mode; answer sequences must equal those of the reference interpreter running the ISO-draft translation.",
       "Trusts the reference translation (2019 draft) and interpreter (self-tested). Cut nested inside a parenthesised alternation that is an element of a sequence is not generated (C03's scope).",
       "differential testing against an executable reference translation + interpreter, exhaustive over short inputs", "§3 C17")
+check("C10", "exploration",
+      "Runtime monitoring of clause storage: each seeded clause term is added by assertz/asserta with variables bound in the calling environment and, separately, consulted from text; clause/2 and retract/1 must show a variant of the term in force, calling the predicate must give the reference interpreter's answers for that term on both paths, and the compiled form reported by the VerifCompile hook is decompiled by the controller and compared with the source (also for every clause of bootstrap.pl as read by the engine's reader and as stored in the loaded database).",
+      "Trusts the controller's decompiler for the 15 opcodes (unknown sequences are inconclusive) and the reference interpreter; clauses whose execution is STO or non-terminating are not generated.",
+      "round-trip oracle (variant check) + differential execution + translation check of the compiled form via hook", "§3 C10")
